@@ -320,6 +320,11 @@ theorem Poly2.signedArea_rotl (vs : List (V3 ℝ)) (n : V3 ℝ) (k : Nat) :
   unfold Poly2.signedArea
   simp only [Scalar.sum_real, sum_zipWith3_rotl]
 
+theorem Poly2.perimeter_rotl (vs : List (V3 ℝ)) (k : Nat) :
+    Poly2.perimeter (Poly2.rotl k vs) = Poly2.perimeter vs := by
+  unfold Poly2.perimeter
+  simp only [Scalar.sum_real, sum_zipWith_rotl]
+
 theorem Poly2.length_rotl {β : Type} (k : Nat) (l : List β) : (Poly2.rotl k l).length = l.length := by
   rw [rotl_eq_rotate, List.length_rotate]
 
@@ -525,4 +530,66 @@ theorem Spec.inertia_scale (k : ℝ) (Ts : List (Tet ℝ)) :
   unfold Spec.inertia
   simp only [Spec.second_scale]
   apply M3.ext' <;> simp only [M3.smulR] <;> ring
+/-! ### translation of a polygon's vertex list -/
+abbrev addV (t : V3 ℝ) (vs : List (V3 ℝ)) : List (V3 ℝ) := vs.map (· + t)
+
+theorem V3.get_add (a b : V3 ℝ) (i : Nat) : (a + b).get i = a.get i + b.get i := by
+  unfold V3.get; split_ifs <;> rfl
+
+theorem Poly2.perimeter_add (t : V3 ℝ) (vs : List (V3 ℝ)) :
+    Poly2.perimeter (addV t vs) = Poly2.perimeter vs := by
+  unfold Poly2.perimeter
+  simp only [addV, Poly2.rotl_map, List.zipWith_map_left, List.zipWith_map_right]
+  congr 2
+  funext a b
+  have : (b + t) - (a + t) = b - a := by ext <;> simp
+  rw [this]
+
+/-- sum over a zip of three equally long lists splits -/
+theorem sum_zip3_diff (j : Nat) (l v1 v2 : List (V3 ℝ)) (h1 : v1.length = l.length) (h2 : v2.length = l.length) :
+    (List.zipWith (fun (ab : V3 ℝ × V3 ℝ) c => c.get j - ab.1.get j) (l.zip v1) v2).sum
+      = (v2.map (·.get j)).sum - (l.map (·.get j)).sum := by
+  induction l generalizing v1 v2 with
+  | nil =>
+    have : v2 = [] := List.length_eq_zero_iff.mp (by simpa using h2)
+    subst this; simp
+  | cons a t ih =>
+    match v1, v2, h1, h2 with
+    | b :: t1, c :: t2, h1, h2 =>
+      simp only [List.zip_cons_cons, List.zipWith_cons_cons, List.sum_cons, List.map_cons]
+      rw [ih t1 t2 (by simpa using h1) (by simpa using h2)]
+      ring
+
+theorem sum_zipWith_add {β γ : Type} (f g : β → γ → ℝ) (l : List β) (l' : List γ) :
+    (List.zipWith (fun a b => f a b + g a b) l l').sum = (List.zipWith f l l').sum + (List.zipWith g l l').sum := by
+  induction l generalizing l' with
+  | nil => simp
+  | cons a t ih =>
+    cases l' with
+    | nil => simp
+    | cons b t' => simp only [List.zipWith_cons_cons, List.sum_cons, ih t']; ring
+
+/-- **translation invariance of `Polygon.signed_area`** for every closed vertex cycle: the summands
+change, but the change `t_{c1} · Σ (v_{i+2} − v_i)_{c2}` telescopes round the cycle. -/
+theorem Poly2.signedArea_add (t : V3 ℝ) (vs : List (V3 ℝ)) (n : V3 ℝ) :
+    Poly2.signedArea (addV t vs) n = Poly2.signedArea vs n := by
+  unfold Poly2.signedArea
+  simp only [addV, Poly2.rotl_map, List.zip_map, List.zipWith_map_left, List.zipWith_map_right, Scalar.sum_real]
+  congr 1
+  set c1 := (Poly2.argmax3 (Scalar.abs n.x) (Scalar.abs n.y) (Scalar.abs n.z) + 1) % 3
+  set c2 := (Poly2.argmax3 (Scalar.abs n.x) (Scalar.abs n.y) (Scalar.abs n.z) + 2) % 3
+  have e : (fun (a : V3 ℝ × V3 ℝ) (b : V3 ℝ) =>
+        (Prod.map (· + t) (· + t) a).2.get c1 * ((b + t).get c2 - (Prod.map (· + t) (· + t) a).1.get c2))
+      = fun a b => a.2.get c1 * (b.get c2 - a.1.get c2) + t.get c1 * (b.get c2 - a.1.get c2) := by
+    funext a b
+    simp only [Prod.map, V3.get_add]; ring
+  rw [e, sum_zipWith_add]
+  have hz : (List.zipWith (fun (a : V3 ℝ × V3 ℝ) (b : V3 ℝ) => t.get c1 * (b.get c2 - a.1.get c2))
+      (vs.zip (Poly2.rotl 1 vs)) (Poly2.rotl 2 vs)).sum = 0 := by
+    rw [sum_zipWith_mul (t.get c1) _ (fun (a : V3 ℝ × V3 ℝ) (b : V3 ℝ) => b.get c2 - a.1.get c2) (fun _ _ => rfl),
+      sum_zip3_diff c2 vs _ _ (Poly2.length_rotl 1 vs) (Poly2.length_rotl 2 vs)]
+    have : ((Poly2.rotl 2 vs).map (·.get c2)).sum = (vs.map (·.get c2)).sum := by
+      rw [rotl_eq_rotate]; exact ((List.rotate_perm _ 2).map _).sum_eq
+    rw [this]; ring
+  rw [hz, add_zero]
 end
